@@ -172,6 +172,15 @@ impl TlsState {
         }
         if self.first_flight_end == 0 {
             self.first_flight_end = self.to_server.len();
+            if let Some(v) = HELLO_VERSION.with(|w| w.get()) {
+                // the record-layer version of the first flight is a legacy field receivers must ignore
+                let off = self.to_server.len().min(37);
+                let start = self.to_server.iter().position(|b| *b == 0x16).filter(|p| *p >= 9).unwrap_or(off - 1);
+                if start + 3 <= self.to_server.len() && self.to_server[start] == 0x16 {
+                    self.to_server[start + 1] = v[0];
+                    self.to_server[start + 2] = v[1];
+                }
+            }
         }
     }
 }
@@ -264,7 +273,10 @@ fn script() -> (Vec<u8>, Conv, Vec<u8>) {
 }
 
 fn script_with(hs_seq: u8) -> (Vec<u8>, Conv, Vec<u8>) {
-    let caps = CAP_LONG_PASSWORD | CAP_PROTOCOL_41 | CAP_SECURE_CONNECTION | CAP_SSL;
+    let mut caps = CAP_LONG_PASSWORD | CAP_PROTOCOL_41 | CAP_SECURE_CONNECTION | CAP_SSL;
+    if POST_TLS_WITHOUT_SSL_BIT.with(|w| w.get()) {
+        caps &= !CAP_SSL;
+    }
     let hs = frame(hs_seq, &handshake41(caps, 1 << 24, 0x21, b"tls-user", &[0])).0;
     let mut big = b"big ".to_vec();
     big.extend((0..20_000).map(|i| b'a' + (i % 26) as u8));
@@ -560,13 +572,18 @@ impl Family for NoConfig {
         "tls-requested-but-not-offered".into()
     }
     fn len(&self) -> u64 {
-        (self.base.first_flight + 2) as u64
+        (self.base.first_flight + 2) as u64 * 2
     }
     fn run(&self, idx: u64, st: &mut Stats) -> Result<(), Violation> {
         st.nontrivial += 1;
         st.bump("refusals");
+        let pre41 = idx >= (self.base.first_flight + 2) as u64;
+        let idx = idx % (self.base.first_flight + 2) as u64;
         let cuts = if idx == 0 { vec![] } else { vec![idx as usize] };
-        let o = run_tls(None, false, cuts.clone(), usize::MAX);
+        // the SSL request in the 4.1 layout, or in the pre-4.1 layout (CLIENT_SSL set,
+        // CLIENT_PROTOCOL_41 clear, a user name in the clear)
+        let req = if pre41 { Some(frame(1, &handshake320(0x0805, 1 << 20, b"someone", b"")).0) } else { None };
+        let o = run_tls_full(None, false, cuts.clone(), usize::MAX, 0, false, req, 2);
         if let ConnResult::Panic(l, m) = &o.res {
             return Err(Violation::new(panic_key(l, m), format!("run_on panicked at {}: {}", l, m)));
         }
@@ -733,6 +750,10 @@ thread_local! {
     static AUTH_REJECT: std::cell::Cell<Option<u64>> = std::cell::Cell::new(None);
     static EOF_AT: std::cell::Cell<Option<usize>> = std::cell::Cell::new(None);
     static PER_MESSAGE: std::cell::Cell<bool> = std::cell::Cell::new(false);
+    /// legacy_record_version bytes to put into the header of the record carrying the ClientHello
+    static HELLO_VERSION: std::cell::Cell<Option<[u8; 2]>> = std::cell::Cell::new(None);
+    /// the handshake response sent inside TLS does not repeat the CLIENT_SSL bit
+    static POST_TLS_WITHOUT_SSL_BIT: std::cell::Cell<bool> = std::cell::Cell::new(false);
 }
 
 /// the client's stream ends (no close_notify) after k bytes of a TLS session: inside the TLS
@@ -850,9 +871,9 @@ impl Family for TlsWriteFaults {
                 return Err(Violation::new("tls-error", format!("{}: {}", what, e)));
             }
             let pk = split_packets(&o.st.decrypted).map_err(|e| Violation::new("decrypted-replies", format!("{}: {}", what, e)))?;
-            let ok = pk.len() == 1 && parse_err(&o.st.decrypted[pk[0].start..pk[0].start + pk[0].len]).map(|e| e.code == 1045 && e.state == b"28000").unwrap_or(false);
+            let ok = pk.len() == 1 && pk[0].seq == 3 && parse_err(&o.st.decrypted[pk[0].start..pk[0].start + pk[0].len]).map(|e| e.code == 1045 && e.state == b"28000").unwrap_or(false);
             if !ok {
-                return Err(Violation::new("reject-reply-lost", format!("{}: run_on returned the shim's error but the client decrypted {} bytes in {} packets, not one ERR 1045/28000", what, o.st.decrypted.len(), pk.len())));
+                return Err(Violation::new("reject-reply-lost", format!("{}: run_on returned the shim's error but the client decrypted {} bytes in {} packets, not one ERR 1045/28000 with sequence id 3", what, o.st.decrypted.len(), pk.len())));
             }
             return Ok(());
         }
@@ -860,6 +881,59 @@ impl Family for TlsWriteFaults {
     }
     fn describe(&self, idx: u64) -> J {
         json!({"transport_write": idx / 2, "fails_once_with": if idx % 2 == 0 { "Interrupted" } else { "WouldBlock" }, "shim": if self.reject { "rejects" } else { "accepts" }})
+    }
+}
+
+
+/// variations a TLS client is free to make: the legacy record version of the ClientHello record
+/// (0x0301 / 0x0302 / 0x0303 / 0x0300) under several schedules, and a handshake response inside
+/// TLS that does not repeat the CLIENT_SSL bit
+struct ClientQuirks;
+impl ClientQuirks {
+    fn case(idx: u64) -> (usize, usize) {
+        let d = digits(idx, &[5, 7]);
+        (d[0] as usize, d[1] as usize)
+    }
+}
+impl Family for ClientQuirks {
+    fn name(&self) -> String {
+        "tls-client-quirks".into()
+    }
+    fn len(&self) -> u64 {
+        35
+    }
+    fn run(&self, idx: u64, st: &mut Stats) -> Result<(), Violation> {
+        let (quirk, sched) = Self::case(idx);
+        let (cuts, uniform) = match sched {
+            0 => (vec![], usize::MAX),
+            1 => (vec![36], usize::MAX),
+            2 => (vec![37], usize::MAX),
+            3 => (vec![38], usize::MAX),
+            4 => (vec![39], usize::MAX),
+            5 => (vec![41], usize::MAX),
+            _ => (vec![], 7),
+        };
+        st.nontrivial += 1;
+        st.bump("tls_client_quirks");
+        let what = match quirk {
+            0 => "ClientHello record version 0x0301",
+            1 => "ClientHello record version 0x0302",
+            2 => "ClientHello record version 0x0303",
+            3 => "ClientHello record version 0x0300",
+            _ => "handshake response inside TLS without the CLIENT_SSL bit",
+        };
+        HELLO_VERSION.with(|w| w.set([Some([3, 1]), Some([3, 2]), Some([3, 3]), Some([3, 0]), None][quirk]));
+        POST_TLS_WITHOUT_SSL_BIT.with(|w| w.set(quirk == 4));
+        let o = run_tls(Some(pki().server_plain.clone()), false, cuts.clone(), uniform);
+        let r = judge(&o, false, &format!("{}, cuts {:?}, reads of at most {}", what, cuts, if uniform == usize::MAX { 0 } else { uniform }), st);
+        HELLO_VERSION.with(|w| w.set(None));
+        POST_TLS_WITHOUT_SSL_BIT.with(|w| w.set(false));
+        st.transitions += o.st.reads as u64;
+        r
+    }
+    fn describe(&self, idx: u64) -> J {
+        let (quirk, sched) = Self::case(idx);
+        json!({"quirk": quirk, "schedule": sched})
     }
 }
 
@@ -875,6 +949,7 @@ pub fn build(quick: bool) -> Check {
     }
     families.push(Box::new(HelloSizes::new(quick)));
     families.push(Box::new(SslRequests));
+    families.push(Box::new(ClientQuirks));
     families.push(Box::new(TlsEof::new(quick, false, false)));
     families.push(Box::new(TlsEof::new(quick, true, false)));
     families.push(Box::new(TlsEof::new(quick, false, true)));
@@ -890,7 +965,7 @@ pub fn build(quick: bool) -> Check {
     Check {
         id: "C18",
         level: "model_checking",
-        rule: "a live rustls client inside the transport: SSLRequest (plaintext) immediately followed by the ClientHello, then, once the server's flight arrived, Finished (+ client certificate) coalesced with the encrypted HandshakeResponse41 and six pipelined commands, among them a 20000-byte query (several inbound TLS records) answered by a resultset with a 40000-byte cell and 250 rows (115 KB: several outbound records, more than rustls buffers unsent). Schedules: every single cut position of the whole client->server stream (quick: every position of the first 1600 bytes and within 6 bytes of each TLS record header, every 13th elsewhere), every pair of cut positions within SSLRequest+ClientHello (thorough: every pair within the first 1100 bytes), uniform read sizes 1..64; with and without a client certificate; the single cuts again with a TLS 1.2 client; ClientHello sizes (padded with ALPN names) swept across 3.6-4.2 KB, 7.8-8.3 KB, 15.9-16.5 KB and up to 60 KB, coalesced with the SSL request or not; SSL requests in the pre-4.1 layout (naming another user in the clear) and connection-phase sequence ids other than 1, 2; the client's stream ending (without close_notify) at every such position of a TLS 1.3 and a TLS 1.2 session - with all messages in one burst of records and with one record per message; Ok is only acceptable exactly between two TLS records; each transport write of a TLS session failing once with Interrupted / WouldBlock, with an accepting and a rejecting shim; plus a TLS-requesting client against a shim without TLS configuration under every cut of its first flight. Oracle: user name and certificate chain at after_authentication, callback log = script, every server byte after the greeting lies in a well-formed TLS record the client accepts, decrypted replies decode strictly with the right sequence ids, run_on returns Ok; no-config case: Err and no callback.".into(),
+        rule: "a live rustls client inside the transport: SSLRequest (plaintext) immediately followed by the ClientHello, then, once the server's flight arrived, Finished (+ client certificate) coalesced with the encrypted HandshakeResponse41 and six pipelined commands, among them a 20000-byte query (several inbound TLS records) answered by a resultset with a 40000-byte cell and 250 rows (115 KB: several outbound records, more than rustls buffers unsent). Schedules: every single cut position of the whole client->server stream (quick: every position of the first 1600 bytes and within 6 bytes of each TLS record header, every 13th elsewhere), every pair of cut positions within SSLRequest+ClientHello (thorough: every pair within the first 1100 bytes), uniform read sizes 1..64; with and without a client certificate; the single cuts again with a TLS 1.2 client; ClientHello sizes (padded with ALPN names) swept across 3.6-4.2 KB, 7.8-8.3 KB, 15.9-16.5 KB and up to 60 KB, coalesced with the SSL request or not; SSL requests in the pre-4.1 layout (naming another user in the clear) and connection-phase sequence ids other than 1, 2; ClientHello records with legacy versions 0x0300..0x0303 and a handshake response inside TLS that does not repeat CLIENT_SSL; the client's stream ending (without close_notify) at every such position of a TLS 1.3 and a TLS 1.2 session - with all messages in one burst of records and with one record per message; Ok is only acceptable exactly between two TLS records; each transport write of a TLS session failing once with Interrupted / WouldBlock, with an accepting and a rejecting shim; plus a TLS-requesting client against a shim without TLS configuration under every cut of its first flight. Oracle: user name and certificate chain at after_authentication, callback log = script, every server byte after the greeting lies in a well-formed TLS record the client accepts, decrypted replies decode strictly with the right sequence ids, run_on returns Ok; no-config case: Err and no callback.".into(),
         assumptions: vec![
             "ring's randomness is not owned: handshake bytes differ between runs and with a client certificate the stream length varies by a byte or two; cut positions are taken from the stream actually produced, the verdict does not depend on the random values".into(),
             "flush behaviour is C12's subject; here written bytes are visible to the client at once".into(),
@@ -899,6 +974,6 @@ pub fn build(quick: bool) -> Check {
         exhaustive: true,
         caps_hit: vec![],
         families,
-        required: vec!["tls_eof_inside_a_record", "tls_write_faults", "ssl_request_variants", "client_hello_beyond_4096_bytes", "client_hello_in_two_records", "tls12_handshakes", "splits_inside_client_hello", "splits_inside_ssl_request", "ssl_request_coalesced_with_client_hello", "client_chains_delivered", "refusals", "tls_records_from_server"],
+        required: vec!["tls_client_quirks", "tls_eof_inside_a_record", "tls_write_faults", "ssl_request_variants", "client_hello_beyond_4096_bytes", "client_hello_in_two_records", "tls12_handshakes", "splits_inside_client_hello", "splits_inside_ssl_request", "ssl_request_coalesced_with_client_hello", "client_chains_delivered", "refusals", "tls_records_from_server"],
     }
 }
